@@ -3,6 +3,10 @@ import AdfObdd.Grounded
 import AdfObdd.Complete
 import AdfObdd.PreGround2
 import AdfObdd.Stable
+import AdfObdd.Props.C02
+import AdfObdd.Props.C03
+import AdfObdd.Props.C04
+import AdfObdd.Props.C05
 /-! # C11 — cache transparency, handle stability, determinism across call histories
 
 Every public call only *extends* the node table and adds sound memo entries (`WF` is preserved,
@@ -47,9 +51,63 @@ theorem complete_filter_history_independent (s s' : Store) (ac v ac' v' : List N
   rw [e1, e2] at a
   cases h : (completeCheck StoreRA s v ac v).2 <;> cases h' : (completeCheck StoreRA s' v' ac' v').2 <;> simp_all
 
-/-! Search-order independence across histories (the ORDER in which the searches of C04/C05 emit
-    their models after an arbitrary history) would need a handle-renaming simulation; it is not
-    stated as a theorem and is checked by the runs only. -/
+/-- the complete-model answer after an arbitrary call history is the answer of a fresh object:
+as sets of three-valued interpretations (each listed once on both sides) -/
+theorem complete_history_independent (s s' : Store) (n : Nat) (ac ac' : List Nat) (w : WF s) (w' : WF s')
+    (hl : ac.length = n) (hl' : ac'.length = n)
+    (hv : ∀ t ∈ ac, t < s.nodes.size) (hv' : ∀ t ∈ ac', t < s'.nodes.size)
+    (hsame : ac.map (eval s) = ac'.map (eval s')) (v : I3) :
+    v ∈ (completeAll s n ac).2.2.map (fun x => x.map storeIsConst) ↔
+    v ∈ (completeAll s' n ac').2.2.map (fun x => x.map storeIsConst) := by
+  have a := (C02.complete_exact s n ac w hl hv).2.1 v
+  have b := (C02.complete_exact s' n ac' w' hl' hv').2.1 v
+  rw [a, b, hsame]
+
+/-- the same for the enumerate-and-check stable models … -/
+theorem stable_history_independent (s s' : Store) (n : Nat) (ac ac' : List Nat) (w : WF s) (w' : WF s')
+    (hl : ac.length = n) (hl' : ac'.length = n)
+    (hv : ∀ t ∈ ac, t < s.nodes.size) (hv' : ∀ t ∈ ac', t < s'.nodes.size)
+    (hsame : ac.map (eval s) = ac'.map (eval s')) (v : I3) :
+    v ∈ (stableAll s n ac).2.map (fun x => x.map storeIsConst) ↔
+    v ∈ (stableAll s' n ac').2.map (fun x => x.map storeIsConst) := by
+  have a := (C03.stable_exact s n ac w hl hv).2 v
+  have b := (C03.stable_exact s' n ac' w' hl' hv').2 v
+  rw [a, b, hsame]
+
+/-- … for the counting-guided search, whose branching order DOES depend on the diagrams' shapes and
+on the memo state only through handles: the set of answers does not … -/
+theorem count_search_history_independent (s s' : Store) (n : Nat) (ac ac' : List Nat) (useA useA' : Bool)
+    (w : WF s) (w' : WF s') (hl : ac.length = n) (hl' : ac'.length = n)
+    (hv : ∀ t ∈ ac, t < s.nodes.size) (hv' : ∀ t ∈ ac', t < s'.nodes.size)
+    (hsame : ac.map (eval s) = ac'.map (eval s')) (v : I3) :
+    v ∈ (countAll s n ac useA).2.map (fun x => x.map storeIsConst) ↔
+    v ∈ (countAll s' n ac' useA').2.map (fun x => x.map storeIsConst) := by
+  have a := (C04.count_search_exact s n ac useA w hl hv).2 v
+  have b := (C04.count_search_exact s' n ac' useA' w' hl' hv').2 v
+  rw [a, b, hsame]
+
+/-- … and for the nogood-learning search in stable mode, under any two heuristics: whatever was
+computed before and whichever heuristic is used, the same models are delivered, each once -/
+theorem ng_search_history_independent (h h' : SM.Heu) (s s' : Store) (n : Nat) (ac ac' : List Nat)
+    (w : WF s) (w' : WF s') (hl : ac.length = n) (hl' : ac'.length = n)
+    (hv : ∀ t ∈ ac, t < s.nodes.size) (hv' : ∀ t ∈ ac', t < s'.nodes.size)
+    (hsame : ac.map (eval s) = ac'.map (eval s')) :
+    ∃ fuel fuel', (SM.ngSearch h fuel s n ac true).2.2.2 = true ∧ (SM.ngSearch h' fuel' s' n ac' true).2.2.2 = true ∧
+      ∀ v : I3, v ∈ (SM.ngSearch h fuel s n ac true).2.1.map (fun x => x.map storeIsConst) ↔
+                v ∈ (SM.ngSearch h' fuel' s' n ac' true).2.1.map (fun x => x.map storeIsConst) := by
+  obtain ⟨f, hd, _, hm⟩ := C05.ng_search_exact h s n ac true w hl hv (by intro hh; cases hh)
+  obtain ⟨f', hd', _, hm'⟩ := C05.ng_search_exact h' s' n ac' true w' hl' hv' (by intro hh; cases hh)
+  refine ⟨f, f', hd, hd', ?_⟩
+  intro v
+  have a := hm v
+  have b := hm' v
+  rw [a, b, hsame]
+
+/-! Determinism ("repeating the same call sequence reproduces the same answers in the same order") is
+    immediate for the model: every function above is a pure function of explicit inputs (for Rand the
+    generator state is an explicit input of the scripted shape). The ORDER in which the two searches
+    emit their models after different histories is not claimed by the property and is not proved
+    equal (it is nevertheless compared handle for handle with the model on every explored history). -/
 
 example : WF Store.init := WF_init
 
